@@ -96,9 +96,45 @@ def infinite_optimum(ctx, rep):
                             "record-not-max", True, got, best, "C01_record_is_max")
 
 
+def parallel_trees(ctx, rep):
+    """tree optimizers with n_jobs > 1 (individuals of different sizes dealt to worker processes): every recorded fitness belongs to the tree
+    recorded next to it, and the reported phenotype attains the reported fitness (deterministic objective, re-evaluated here)"""
+    import thefittest.optimizers as O
+    import c16_objectives as CO
+    for kind, nj in (("GeneticProgramming", 2), ("SelfCGP", 3), ("GeneticProgramming", 3), ("PDPGP", 4))[: ctx.pick(3, 4)]:
+        seed, pop = ctx.rng.randrange(1 << 30), ctx.rng.choice([9, 10])
+        mini = bool(seed % 2)
+        from thefittest.base._tree import init_symbolic_regression_uniset
+        uniset = init_symbolic_regression_uniset(np.arange(12, dtype=np.float64).reshape(6, 2) / 4.0, ("add", "mul", "sub", "cos"))     # picklable nodes
+        opt = getattr(O, kind)(CO.tree_score, uniset=uniset, iters=4, pop_size=pop, max_level=5, n_jobs=nj, keep_history=True,
+                               random_state=seed, minimization=mini)
+        opt.fit()
+        rep.traces += 1
+        rep.count("parallel-trees", (kind, nj, seed))
+        sign = -1.0 if mini else 1.0
+        st = opt.get_stats()
+        case = dict(kind=kind, n_jobs=nj, random_state=seed, pop_size=pop, minimization=mini)
+        bad = None
+        for g, (P, F) in enumerate(zip(st["population_ph"], st["fitness"])):
+            vals = sign * CO.tree_score(np.array(list(P), dtype=object))
+            if not np.array_equal(vals, np.asarray(F, dtype=np.float64)):
+                j = int(np.argmax(vals != np.asarray(F, dtype=np.float64)))
+                bad = f"generation {g}: fitness[{j}] = {float(np.asarray(F)[j])} but the tree stored next to it evaluates to {float(vals[j])}"
+                break
+            if float(sign * CO.tree_score(np.array([st["max_ph"][g]], dtype=object))[0]) != float(st["max_fitness"][g]):
+                bad = f"generation {g}: max_ph does not attain max_fitness"
+                break
+        ft = opt.get_fittest()
+        if bad is None and float(sign * CO.tree_score(np.array([ft["phenotype"]], dtype=object))[0]) != float(ft["fitness"]):
+            bad = f"the reported phenotype evaluates to {float(sign * CO.tree_score(np.array([ft['phenotype']], dtype=object))[0])}, reported fitness {float(ft['fitness'])}"
+        if bad:
+            rep.problem("best", f"{kind} with n_jobs={nj}: {bad}", case, "record-not-evaluated", True, None, None, "C01_record_is_max")
+
+
 def run(ctx, rep):
     _loop.run_all(ctx, rep, "C01", predicate, 30, 300)
     infinite_optimum(ctx, rep)
+    parallel_trees(ctx, rep)
 
 
 def replay(ctx, rp):
